@@ -84,6 +84,28 @@ theorem sort_is_reference_sort (ops : NumOps) (l : List Value) (hc : Comparable 
     callPure ops "sort" [.list l] = some (.ok (.list (stableRef sortLt l))) := by
   rw [sort_builtin, Blots.mergeSortBy_eq_stableRef (sortLt_weakOrder l hc) _ _ (Nat.le_refl _) (fun _ h => h)]
 
+/-- a list that is already in order (on comparable elements) is returned unchanged -/
+theorem sort_fixes_sorted (ops : NumOps) (l : List Value) (hc : Comparable l)
+    (hs : l.Pairwise (fun a b => vcmp a b = some .lt ∨ vcmp a b = some .eq)) :
+    callPure ops "sort" [.list l] = some (.ok (.list l)) := by
+  rw [sort_is_reference_sort ops l hc, stableRef_of_sorted]
+  refine List.Pairwise.imp ?_ hs
+  intro a b h
+  rcases h with h | h
+  · simp [sortLt, vcmp_lt_gt h]
+  · simp [sortLt, vcmp_eq_symm h]
+
+/-- `sort` is idempotent on mutually comparable elements -/
+theorem sort_idempotent (ops : NumOps) (l : List Value) (hc : Comparable l) :
+    ∃ out, callPure ops "sort" [.list l] = some (.ok (.list out)) ∧
+      callPure ops "sort" [.list out] = some (.ok (.list out)) := by
+  refine ⟨_, sort_builtin ops l, ?_⟩
+  have hmem := mem_mergeSortBy sortLt l.length l
+  apply sort_fixes_sorted
+  · intro a ha b hb
+    exact hc a ((hmem a).mp ha) b ((hmem b).mp hb)
+  · exact sort_sorted_vcmp l hc
+
 /-- `Comparable` holds e.g. for numbers without NaN; a string next to a number breaks it -/
 example : Comparable [.num int2, .num int1] := by
   intro a ha b hb
